@@ -147,7 +147,9 @@ Fixpoint rep_items (G : list ident) (cs : counters) (items : list sitem) : list 
   | [] => ([], cs)
   | IClause r args conds :: rest =>
       let '(a', c', here, cs1) := rep_args G [] cs args in
-      let (rest', cs2) := rep_items (here ++ G) cs1 rest in
+      (* variables bound by the conditions attached to the clause (on entry of this pass: the user's let / if-let and the
+         `if let pat = __arg_pattern_k` of pass 2) are grounded for the items that follow (since /repo fd71eb0) *)
+      let (rest', cs2) := rep_items (flat_map cond_grounds conds ++ here ++ G) cs1 rest in
       (IClause r a' (c' ++ conds) :: rest', cs2)
   | ICond c :: rest => let (rest', cs2) := rep_items (cond_grounds c ++ G) cs rest in (ICond c :: rest', cs2)
   | IGen x g xs :: rest => let (rest', cs2) := rep_items (x :: G) cs rest in (IGen x g xs :: rest', cs2)
